@@ -7,13 +7,15 @@ P=$1; N=${2:-$1}; W=/tmp/wt_$N; O=/verif/seeded/$N
 demo=$(ls $W/tests/demo_* 2>/dev/null | head -1)
 dn=$(basename "$demo" .rs)
 cd $W
+# (git stash is shared between worktrees: never use it here) start from the agent's own patch
+git checkout -q -- src && git apply _out/patch.diff || { echo "agent patch does not apply"; exit 3; }
 mkdir -p /tmp/aside_$N && mv "$demo" /tmp/aside_$N/
 t1=$(cargo test --offline 2>&1 | grep -E '^test result' | grep -vc ' 0 failed'); echo "suite failures with change: $t1"
 mv /tmp/aside_$N/$(basename $demo) tests/
 d1=$(timeout 300 cargo test --offline --test $dn 2>&1 | grep -E '^test result' | grep -c ' 0 failed'); echo "demo passes with change (want 0): $d1"
-git stash -q -- src
+git apply -R _out/patch.diff
 d2=$(timeout 300 cargo test --offline --test $dn 2>&1 | grep -E '^test result' | grep -c ' 0 failed'); echo "demo passes without change (want 1): $d2"
-git stash pop -q
+git apply _out/patch.diff
 mkdir -p $O && git diff -- src > $O/patch.diff && cp "$demo" $O/ && cp _out/meta.json $O/agent_meta.json
 cd /verif
 git -C /repo apply $O/patch.diff || { echo "patch does not apply to /repo"; exit 3; }
